@@ -256,3 +256,19 @@ Theorem C09_source_out_of_range_panics_dropping_all : forall l idx k, l <> [] ->
   run_tail gen_swap_remove "swap_remove_unchecked" gen_swap_remove_unchecked (Datatypes.length l) k
     [("self", VArr l); ("idx", VUsize idx)] = (PanicBounds, map EDrop l).
 Proof. exact src_remove_out_of_range. Qed.
+
+(* ---- T1: which trait methods are implemented (coq/gen/GenSigs.v gen_impl_methods) ---- *)
+From Coq Require Import String.
+From GA Require Import SigTie.
+From GAGen Require Import GenSigs.
+Local Open Scope string_scope.
+
+(* the sequence-trait methods the array defines itself (regenerated): remove and swap_remove are the trait's provided methods (assert + unchecked form) *)
+Theorem C09_source_impl_methods :
+  methods_of "Lengthen<T> for GenericArray<T,N>" = Some ["append"; "prepend"] /\
+  methods_of "Shorten<T> for GenericArray<T,N>" = Some ["pop_back"; "pop_front"] /\
+  methods_of "Split<T,K> for GenericArray<T,N>" = Some ["split"] /\
+  methods_of "Concat<T,M> for GenericArray<T,N>" = Some ["concat"] /\
+  methods_of "Remove<T,N> for GenericArray<T,N>" = Some ["remove_unchecked"; "swap_remove_unchecked"].
+Proof. repeat split. Qed.
+
